@@ -138,6 +138,9 @@ def run(case):
     if k == "l2":
         rng = np.random.RandomState(case["seed"])
         X = rng.randn(6, 4) * (10.0 ** rng.randint(-3, 4))
+        # rows of very small / very large magnitude (squares still representable: 1e-100 .. 1e100)
+        X[rng.randint(6)] *= 10.0 ** float(rng.choice([-100, -30, -13, -12, -9, 9, 30, 100]))
+        X[rng.randint(6)] = np.array([3.0, 4.0, 0.0, 0.0]) * 10.0 ** float(rng.choice([-13, -14, -40, 13]))
         X[rng.randint(6)] = 0.0
         # sparse rows: exact zeros among the coordinates of a non-zero row, integer-valued rows, a one-hot row
         X[rng.randint(6), rng.randint(4)] = 0.0
@@ -150,7 +153,8 @@ def run(case):
         norms = np.sqrt((N ** 2).sum(axis=1))
         zero = (X == 0).all(axis=1)
         ok = bool(np.all(np.abs(norms[~zero] - 1.0) <= 4 * np.finfo(float).eps)) and bool(np.all(N[zero] == 0)) \
-            and bool(np.all((N[~zero] * np.sqrt((X[~zero] ** 2).sum(axis=1))[:, None] - X[~zero]) <= 1e-9 * np.abs(X[~zero]).max()))
+            and bool(np.all(np.abs(N[~zero] * np.sqrt((X[~zero] ** 2).sum(axis=1))[:, None] - X[~zero])
+                            <= 1e-9 * np.abs(X[~zero]).max(axis=1)[:, None]))
         return {"ok": ok}
     raise ValueError(k)
 
